@@ -192,6 +192,8 @@ class Run:
 
     def nontrivial(self, canon: Any) -> None:
         h = hashlib.sha1(json.dumps(canon, sort_keys=True, default=str).encode()).hexdigest()
+        if h not in self._distinct and len(getattr(self, "_first_cases", [])) < 3:
+            self._first_cases = getattr(self, "_first_cases", []) + [canon]
         self._distinct.add(h)
 
     def sample(self, s: Any, limit: int = 6) -> None:
@@ -226,6 +228,10 @@ class Run:
 
     def finish(self) -> int:
         self.coverage["distinct_nontrivial"] = len(self._distinct)
+        if not self.coverage["samples"]:
+            # explorers that record no sample of their own: the first distinct case keys of this run, written out
+            self.coverage["samples"] = [{"distinct_case_key": repr(k)[:400]} for k in getattr(self, "_first_cases", [])] + \
+                                       [{"obligation": t} for t in self.coverage.get("theorems", [])[:3]]
         ev = {
             "property_id": self.pid,
             "tier": self.tier,
